@@ -236,6 +236,17 @@ impl Baton {
 
     /// The switch point callback.
     pub fn at(&self, p: Point) {
+        self.step(Some(p))
+    }
+
+    /// A switch point of the harness itself: between two operations of a thread (the first has
+    /// returned, so whatever it queued is visible; the second has not touched anything yet). The
+    /// library has no point there: its last one in a write is *before* the operation is sent.
+    pub fn between_ops(&self) {
+        self.step(None)
+    }
+
+    fn step(&self, p: Option<Point>) {
         let me = tid();
         if me == usize::MAX {
             return; // not a scheduled worker (the harness' own thread at quiescence)
@@ -246,10 +257,18 @@ impl Baton {
         }
         s.steps += 1;
         s.trace_hash.write(&[me as u8]);
-        s.trace_hash.write_str(&format!("{:?}", p));
-        if s.keep_trace && s.trace.len() < 100_000 {
+        match p {
+            Some(p) => s.trace_hash.write_str(&format!("{:?}", p)),
+            None => s.trace_hash.write_str("-"),
+        }
+        if let (true, Some(p)) = (s.keep_trace && s.trace.len() < 100_000, p) {
             s.trace.push((me as u8, p));
         }
+        let p = match p {
+            Some(p) => p,
+            // treated like any point that changes no scheduler state
+            None => Point::WriteBeforeSend,
+        };
         match p {
             Point::SyncBeforeLock => {
                 s.in_sync_depth[me] += 1;
